@@ -71,6 +71,7 @@ def run(rep: Report, tier: str) -> None:
 	rule_f(rep, idx)
 	rule_g(rep, idx)
 	rule_h(rep, idx)
+	rule_template_module_state(rep)
 
 
 # ---- (a) load / unload pairing ------------------------------------------------------------------------------------
@@ -777,3 +778,36 @@ def rule_h(rep: Report, idx: SourceIndex) -> None:
 				else:
 					r.skip(key, (rel, c_.lineno), f'receiver of extends() not classified: {why}')
 	rep.extra_coverage['extends_sites'] = n_sites
+
+
+def rule_template_module_state(rep: Report) -> None:
+	"""A template pulled in with `{% import 'x.j2' as m %}` (without context) is built into a module ONCE per jinja Environment and cached there; the
+	Renderer keeps one Environment for the whole process. Whatever such a template sets at its top level — outside every macro — therefore lives as long
+	as the process: a `namespace(...)` (the only mutable object templates have) created there and written by a macro carries the arguments of one call
+	into the next (`'x'.format()` rendered after `'{} {}'.format(n, s)` emits the previous arguments). Working namespaces belong inside the macro."""
+	from vlib.templates import TemplateModel
+	tm = TemplateModel()
+	n = tm.nodes
+	r = rep.rule('C04/imported-templates-keep-no-state', 'no template that is imported as a macro library creates a namespace(...) (or list / dict) at its top level, outside its macros', floor=1)
+	imported: dict[str, list[str]] = {}
+	for name, tree in tm.asts.items():
+		for imp in list(tree.find_all(n.Import)) + list(tree.find_all(n.FromImport)):
+			t = imp.template
+			if isinstance(t, n.Const) and isinstance(t.value, str):
+				imported.setdefault(t.value[:-3] if t.value.endswith('.j2') else t.value, []).append(name)
+	if not imported:
+		r.skip('imports', ('data/cpp/template', 1), 'no template imports another one')
+		return
+	for lib, users in sorted(imported.items()):
+		if lib not in tm.asts:
+			r.skip(lib, ('data/cpp/template', 1), f'imported template {lib} not parsed')
+			continue
+		in_macros = {id(x) for m_ in tm.asts[lib].find_all(n.Macro) for x in m_.find_all(n.Assign)}
+		stateful = []
+		for a in tm.asts[lib].find_all(n.Assign):
+			if id(a) in in_macros:
+				continue
+			v = a.node
+			if (isinstance(v, n.Call) and isinstance(v.node, n.Name) and v.node.name == 'namespace') or isinstance(v, (n.List, n.Dict)):
+				stateful.append(a)
+		r.check(not stateful, lib, (tm.relpath(lib), stateful[0].lineno if stateful else 1), f'{lib}.j2 is imported as a macro library by {sorted(set(users))[:3]} and creates a mutable object at its top level (line {stateful[0].lineno if stateful else "?"}): the module jinja builds for an import is cached on the Environment, so the object outlives the render — a macro that writes to it hands the state of one call (of one module) to the next, and the output of a module depends on what was rendered before it in the process')
